@@ -315,6 +315,12 @@ func (e *Exec) evalExternal(call *ast.CallExpr, st *State, ctx *Ctx) []string {
 		if len(call.Args) == 2 {
 			return []string{"(pathJoin " + arg(0) + " " + arg(1) + ")"}
 		}
+	case "path/filepath.Ext":
+		return []string{"(pathExt " + arg(0) + ")"}
+	case "os.Stat":
+		e.note("os.Stat(p) fails with the uninterpreted error statE(p): the directory does not change during an evaluation (assumed)")
+		info0 := e.fresh(st, "fileinfo", "Int")
+		return []string{info0, "(statE " + arg(0) + ")"}
 	case "path/filepath.Glob":
 		e.note("filepath.Glob(pat) is the uninterpreted pair globRawS / globRawE of the pattern: the directory does not change during an evaluation (assumed)")
 		return []string{"(globRawS " + arg(0) + ")", "(globRawE " + arg(0) + ")"}
